@@ -16,6 +16,7 @@ ASSUME = ["brute-force posterior / soft-ML references in float64 (numpy) over th
           "Taylor-arctanh mode is an advertised approximation: exactness only required for |LLR| <= 0.5"]
 HORIZON = {"quick": 300, "thorough": 3600}
 MAGS = [0.5, 1.0, 2.0, 5.0, 20.0, 50.0]
+EXT = [1e-30, 1e-20, 1e-8, 1e-3, 1e4, 1e20]          # "of any positive magnitude": far outside the usual range as well (normal float32 values)
 ALPHA = [0.4, -0.4, 1.1, -1.1, 2.3, -2.3]
 
 
@@ -167,7 +168,7 @@ def bp_case(p, res):
                     v("raises", f"constructor: {type(e).__name__}: {str(e)[:200]}")
                     continue
                 # ---- clean clause: every codeword, six magnitudes, one batched call per magnitude
-                for mag in MAGS:
+                for mag in MAGS + EXT:
                     if comp == "bp" and not arct and mag > 0.5:
                         continue  # Taylor mode: advertised approximation, only small LLRs required
                     x = torch.tensor([[(1 - 2 * bit) * mag for bit in gf2.bits(c, n)] for c in cws], dtype=torch.float32)
@@ -187,6 +188,8 @@ def bp_case(p, res):
                         m, g = bad[0]
                         v("clean", f"noise-free LLRs (magnitude {mag}) of codeword {gf2.bits(cws[m], n)} (message {gf2.bits(m, k)}) decoded to {None if g is None else gf2.bits(g, k)}", {"m": m, "mag": mag})
                         break
+                    if mag in EXT:
+                        continue
                     # the same words once more with the per-call option return_soft=True (the next magnitude is a plain call again): the hard part
                     # of the answer is the same clean decoding
                     try:
@@ -390,7 +393,7 @@ def wagner_case(p, res):
             i = bad[0]
             v("wagner-ml", f"layout {layout}: {len(bad)}/{len(want)} inputs not decoded to a maximum-likelihood even-parity word, e.g. item {i}: got {None if got[i] is None else gf2.bits(got[i], k)}, ML message(s) {[gf2.bits(t, k) for t in sorted(want[i])]}", {"layout": layout, "i": i})
     # noise-free clause
-    for mag in MAGS:
+    for mag in MAGS + EXT:
         y = dec(torch.tensor([[(1 - 2 * bit) * mag for bit in gf2.bits(c, n)] for c in cws], dtype=torch.float32))
         res.ev(len(cws), transitions=1)
         if C.tensor_to_ints(y) != msgs:
@@ -419,7 +422,7 @@ def _softrm_one(r, m, res):
     code = C.Code(enc)
     msgs = C.message_set(k, full_limit=11)
     cws, _ = code.encode_ints(msgs)
-    for mag in MAGS:
+    for mag in MAGS + EXT:
         x = torch.tensor([[(1 - 2 * bit) * mag for bit in gf2.bits(c, n)] for c in cws], dtype=torch.float32)
         try:
             y = dec(x)
